@@ -572,6 +572,13 @@ func (cs *CaseStatement) Idx0() file.Idx {
 
 // Idx1 implements Node.
 func (cs *CaseStatement) Idx1() file.Idx {
+	if len(cs.Consequent) == 0 {
+		// No statements: the clause ends with its test (or the default keyword).
+		if cs.Test != nil {
+			return cs.Test.Idx1()
+		}
+		return cs.Case + 7 // default
+	}
 	return cs.Consequent[len(cs.Consequent)-1].Idx1()
 }
 
@@ -955,10 +962,24 @@ type Program struct {
 
 // Idx0 implements Node.
 func (p *Program) Idx0() file.Idx {
+	if len(p.Body) == 0 {
+		return p.emptyIdx()
+	}
 	return p.Body[0].Idx0()
+}
+
+// emptyIdx is the position of a program without statements: the file's base.
+func (p *Program) emptyIdx() file.Idx {
+	if p.File != nil {
+		return file.Idx(p.File.Base())
+	}
+	return 0
 }
 
 // Idx1 implements Node.
 func (p *Program) Idx1() file.Idx {
+	if len(p.Body) == 0 {
+		return p.emptyIdx()
+	}
 	return p.Body[len(p.Body)-1].Idx1()
 }
